@@ -19,6 +19,9 @@
 (*            insert the block now, the others fall behind                                                   *)
 (*   Deliver  a node that is behind receives its next block (block path only)                                *)
 (*   Probe    every synced node validates a block that is valid only under one set of rules                   *)
+(*   Reorg    the last block was inserted by some nodes only; the others commit the empty block at that height  *)
+(*            instead and the holders of the orphaned block switch to it (ResetTo + AddBlock, as the fork        *)
+(*            resolver does)                                                                                 *)
 EXTENDS Upgrade, Json
 
 CONSTANTS Nodes, Bases, Gens, VNs, MaxT,
@@ -26,7 +29,7 @@ CONSTANTS Nodes, Bases, Gens, VNs, MaxT,
           Proposers,    \* who proposes honest blocks
           Crafters,     \* who offers crafted blocks
           Laggers,      \* who may be left behind in a round
-          MaxVotes, MaxOdd, MaxBlocks, MaxRestarts, MaxPersists, MaxTicks, MaxCraft, MaxForce, MaxLag, MaxProbes,
+          MaxVotes, MaxOdd, MaxBlocks, MaxRestarts, MaxPersists, MaxTicks, MaxCraft, MaxForce, MaxLag, MaxProbes, MaxReorg,
           ExportOn, SampleMod
 
 Ids == Nodes
@@ -57,7 +60,7 @@ Init == /\ w \in [base : Bases, gen : Gens, vn : VNs]
         /\ nd = [n \in Nodes |-> [ver |-> w.base, stored |-> 0, book |-> Book0, pbook |-> Book0, cur |-> PreGen, old |-> NoGen, inter |-> NoGen]]
         /\ hd = [n \in Nodes |-> 0]
         /\ now = IF w.base = 10 THEN 0 ELSE 2
-        /\ cnt = [vote |-> 0, odd |-> 0, blk |-> 0, restart |-> 0, persist |-> 0, tick |-> 0, craft |-> 0, force |-> 0, lag |-> 0, probe |-> 0]
+        /\ cnt = [vote |-> 0, odd |-> 0, blk |-> 0, restart |-> 0, persist |-> 0, tick |-> 0, craft |-> 0, force |-> 0, lag |-> 0, probe |-> 0, reorg |-> 0]
         /\ clean = TRUE /\ sg = <<0, -1>> /\ lab = [kind |-> "init"] /\ hist = <<>>
 
 Step(k) == [k |-> k, t |-> 0, i |-> 0, b |-> 0, hon |-> 0, s |-> {}, n |-> 0, p |-> 0, c |-> <<>>, f |-> 0, r |-> {}, x |-> <<>>]
@@ -189,6 +192,27 @@ Probe(k, r) ==
     /\ hist' = Append(hist, [Step("probe") EXCEPT !.x = <<k, r>>])
     /\ UNCHANGED <<w, chain, nd, hd, now, clean>>
 
+Reorg ==
+    /\ cnt.reorg < MaxReorg /\ Len(chain) >= 1
+    /\ LET j == Len(chain)
+           last == chain[j]
+           alt == EmptyBlock(Cfg, BlockAt(j - 1))
+           H == {n \in Nodes : hd[n] = j}
+           B == {n \in Nodes : hd[n] = j - 1}
+           sub == SubSeq(chain, 1, j - 1)
+       IN /\ H # {} /\ B # {} /\ alt # last
+          /\ chain' = [chain EXCEPT ![j] = alt]
+          /\ nd' = [n \in Nodes |-> IF n \in B THEN InsertBlock(Cfg, nd[n], alt, j + 1)
+                                    ELSE IF n \in H THEN InsertBlock(Cfg, RollBack(Cfg, w.base, nd[n], sub, 1, j - 1), alt, j + 1)
+                                    ELSE nd[n]]
+          /\ hd' = [n \in Nodes |-> IF n \in B THEN j ELSE hd[n]]
+          /\ lab' = [kind |-> IF \E n \in H : nd'[n].ver # nd[n].ver THEN "reorg:upgrade"
+                              ELSE IF last.ng THEN "reorg:newgenesis"
+                              ELSE IF last.upg > 0 THEN "reorg:bits-without-upgrade" ELSE "reorg:plain"]
+    /\ sg' = <<0, -1>> /\ cnt' = Inc("reorg")
+    /\ hist' = Append(hist, Step("reorg"))
+    /\ UNCHANGED <<w, now, clean>>
+
 Rs(p) == {Synced} \cup {Synced \ {l} : l \in Laggers \ {p}}
 Next == \/ \E t \in 0..MaxT : Tick(t)
         \/ \E i \in Ids, b \in {0, 11, 12, Wrong}, S \in VoteSets : Vote(i, b, S)
@@ -198,6 +222,7 @@ Next == \/ \E t \in 0..MaxT : Tick(t)
         \/ \E p \in Crafters, u \in {0, 11, 12, Wrong}, g \in BOOLEAN, force \in {0, 1} : \E R \in Rs(p) : Crafted(p, u, g, force, R)
         \/ \E n \in Nodes : Deliver(n)
         \/ \E r \in 11..12 : Probe("pay", r)
+        \/ Reorg
 
 Spec == Init /\ [][Next]_vars
 
@@ -232,7 +257,8 @@ NewGenesisExactlyAfterUpgrade == \A j \in 1..Len(chain) : chain[j].ng <=> (w.gen
 
 \* without Byzantine committees and without the V11Always quirk the chain only upgrades through blocks that every
 \* validator accepted with a quorum book inside the window
-VersionMonotone == [][\A n \in Nodes : nd'[n].ver >= nd[n].ver /\ nd'[n].stored >= nd[n].stored]_vars
+VersionMonotone == [][lab'.kind \in {"reorg:upgrade", "reorg:newgenesis", "reorg:plain", "reorg:bits-without-upgrade"}
+                        \/ \A n \in Nodes : nd'[n].ver >= nd[n].ver /\ nd'[n].stored >= nd[n].stored]_vars
 
 \* a restart changes nothing but the book (which falls back to its persisted copy) and - quirk - the old genesis
 RestartNeutral == [][\A n \in Nodes : lab'.kind \in {"restart:at-upgrade", "restart:at-newgenesis", "restart:behind", "restart:upgraded", "restart:book-lost",
